@@ -19,6 +19,7 @@ import (
 	"context"
 	"encoding/binary"
 	"fmt"
+	"hash/crc32"
 	"math/rand"
 	"os"
 	"path/filepath"
@@ -91,8 +92,14 @@ func c29Listing(e *explorer.Explorer) string {
 			detail = "DIFF"
 		}
 	}
-	return fmt.Sprintf("listing total=%d scanned=%d errors=%d names=%s paged=%s realms=%d detail=%s", st.TotalFiles, st.ScannedFiles, st.ErrorCount,
-		strings.Join(hx, ","), paged, realms, detail)
+	// what a caller gets who asks for "everything" in one ListSwamps call, as the TUI does per realm
+	one := e.ListSwamps(&explorer.SwampFilter{Limit: 10000})
+	nm := strings.Join(hx, ",")
+	if len(names) > 40 { // large directories: digest instead of the full list
+		nm = fmt.Sprintf("digest:%d:%08x", len(names), crc32.ChecksumIEEE([]byte(strings.Join(hx, ","))))
+	}
+	return fmt.Sprintf("listing total=%d scanned=%d errors=%d names=%s paged=%s realms=%d detail=%s onepage=%d/%d", st.TotalFiles, st.ScannedFiles, st.ErrorCount,
+		nm, paged, realms, detail, len(one.Swamps), one.Total)
 }
 
 func c29Run(in *bufio.Scanner, w *bufio.Writer) {
@@ -378,6 +385,24 @@ func c29Gen(rng *rand.Rand, tier string, w *bufio.Writer) {
 	fmt.Fprintln(w, "scan")
 	fmt.Fprintln(w, "wipe")
 	fmt.Fprintln(w, "scan") // a re-scan that finds nothing must list nothing
+	// a realm with more swamps than one ListSwamps page can carry (the limit is clamped to 1000)
+	fmt.Fprintf(w, "case %d\n", caseNo)
+	caseNo++
+	{
+		p := newPath()
+		fw, err := v2.NewFileWriterWithName(p, 0, "big/realm/s0000")
+		if err == nil {
+			_ = fw.Close()
+			img, _ := os.ReadFile(p)
+			for i := 0; i < 1001; i++ {
+				nm := []byte(fmt.Sprintf("big/realm/s%04d", i))
+				x := append([]byte{}, img...)
+				copy(x[64:], nm) // same length: only the name bytes differ
+				fmt.Fprintf(w, "f %s x:%s v3\n", c01Hex(x), c01Hex(nm))
+			}
+		}
+	}
+	fmt.Fprintln(w, "scan")
 	// more damaged files than scan workers (the pool has at most 64), plus a few good ones
 	fmt.Fprintf(w, "case %d\n", caseNo)
 	caseNo++
